@@ -7,6 +7,7 @@
 Require Extraction.
 Require Import ExtrOcamlBasic.
 Require Model.Base Model.Ast Model.Ir Model.Lift Model.LiftFull Model.LiftFullReport Model.SignalAssign Model.SigAssignSource
+  Model.SsaPre Model.IrCfgCheck
   Spec.CfgSpec.
 Separate Extraction Base.base_roots Base.outcome LiftFull.try_lift_impl LiftFull.erase_cfg LiftFull.definition_wf
   LiftFull.skel LiftFull.skel_block LiftFull.lifted_stmts LiftFull.graph_stmts LiftFull.lift_meta
@@ -14,4 +15,5 @@ Separate Extraction Base.base_roots Base.outcome LiftFull.try_lift_impl LiftFull
   SigAssignSource.source_metas_distinct_b SigAssignSource.source_signal_assignments SignalAssign.subkeys_distinct_b
   LiftFullReport.shadow_to_report LiftFullReport.param_collision_report LiftFullReport.stmt_metas_distinct_b
   LiftFull.is_block LiftFull.ast_init_flat CfgSpec.init_ok CfgSpec.trace_tree
-  LiftFullReport.positional_key LiftFullReport.stmt_ir_metas.
+  LiftFullReport.positional_key LiftFullReport.stmt_ir_metas
+  SsaPre.phi_free IrCfgCheck.cfg_wf_b IrCfgCheck.cfg_wf_clauses IrCfgCheck.ssa_shape_b.
